@@ -1,5 +1,922 @@
 /-
-C18 — property theorems (stub; nothing proved yet).
+C18 — coupled strength and grain-growth models stay physical and aligned.
+
+Theorems about
+* `KawinV.Gen.C18`   — scalar strength formulas REGENERATED from kawin/precipitation/coupling/Strength.py
+  on every run (mixed / edge / screw contributions, Orowan, line tension),
+* `KawinV.Strength`  — hand model of getStrengthContributions / combineStrengthContributions /
+  precStrength / totalStrength / updateCoupledModel,
+* `KawinV.Grain`     — hand model of GrainGrowth.py (Zener-constrained growth, Normalize, transport
+  with zero nucleation on top of `KawinV.PBM`, clock bookkeeping).
+
+Generic parts: α any linearly ordered field (+ the transcendental atoms `Trans α` as opaque
+functions; what "θ = 90°/0°" means for the atoms is an explicit hypothesis, discharged over ℝ).
+Superposition: ℝ with Mathlib's `rpow`.
 -/
+import KawinV.Gen.C18Strength
+import KawinV.Model.Strength
+import KawinV.Model.GrainGrowth
+import KawinV.Props.C07
+import Mathlib.Tactic.Ring
+import Mathlib.Tactic.Linarith
+import Mathlib.Tactic.FieldSimp
+import Mathlib.Tactic.NormNum
+import Mathlib.Tactic.Positivity
+import Mathlib.Algebra.Order.Field.Basic
+import Mathlib.Algebra.BigOperators.Group.Finset.Basic
+import Mathlib.Algebra.BigOperators.Intervals
+import Mathlib.Algebra.Order.BigOperators.Group.List
+import Mathlib.Algebra.Order.BigOperators.Group.Finset
+import Mathlib.Analysis.SpecialFunctions.Pow.Real
+import Mathlib.Analysis.SpecialFunctions.Trigonometric.Basic
+import Mathlib.Analysis.SpecialFunctions.Log.Basic
+
+set_option linter.unusedSectionVars false
+set_option linter.unusedVariables false
+set_option linter.unusedSimpArgs false
+set_option linter.unnecessarySimpa false
+
 namespace KawinV.Props.C18
+open KawinV KawinV.Gen.C18 KawinV.Strength KawinV.Grain
+open Finset
+
+/-! ## clipping -/
+section clipping
+variable {α : Type} [Field α] [LinearOrder α] [IsStrictOrderedRing α]
+
+/-- **clipping**: whatever the formula returned (negative, NaN, inf), the clipped value is ≥ 0 -/
+theorem clip_nonneg (fin : α → Bool) (x : α) : 0 ≤ clip fin x := by
+  unfold clip; split
+  · exact le_refl _
+  · next h => exact not_lt.mp (fun hx => h (Or.inl hx))
+
+/-- a finite non-negative value passes the clip unchanged -/
+theorem clip_eq_self (fin : α → Bool) (x : α) (hx : 0 ≤ x) (hf : fin x = true) : clip fin x = x := by
+  unfold clip; rw [if_neg]
+  rintro (h | h)
+  · exact absurd h (not_lt.mpr hx)
+  · simp [hf] at h
+
+/-- a non-finite value (no precipitates: division by a zero spacing, log 0) becomes 0 -/
+theorem clip_not_finite (fin : α → Bool) (x : α) (hf : fin x = false) : clip fin x = 0 := by
+  unfold clip; simp [hf]
+
+theorem clip_negative (fin : α → Bool) (x : α) (hx : x < 0) : clip fin x = 0 := by
+  unfold clip; simp [hx]
+
+theorem clean_nonneg (fin : α → Bool) (x : α) (hx : 0 ≤ x) : 0 ≤ clean fin x := by
+  unfold clean; split <;> [exact hx; exact le_refl _]
+
+theorem clean_clip (fin : α → Bool) (x : α) : clean fin (clip fin x) = clip fin x ∨ clean fin (clip fin x) = 0 := by
+  unfold clean; split <;> simp
+
+/-- **clipping**: every weak, strong and Orowan contribution handed on by getStrengthContributions
+is ≥ 0, for every parameter set, phase selection, radius and spacing -/
+theorem contributions_nonneg (fin : α → Bool) (cs : List (Contrib α)) (oroF : α → α → α)
+    (r0w : α → α) (r Ls : α) :
+    (∀ w ∈ (getContributions fin cs oroF r0w r Ls).weak, 0 ≤ w) ∧
+    (∀ w ∈ (getContributions fin cs oroF r0w r Ls).strong, 0 ≤ w) ∧
+    0 ≤ (getContributions fin cs oroF r0w r Ls).oro := by
+  refine ⟨?_, ?_, clip_nonneg _ _⟩
+  · intro w hw
+    simp only [getContributions, List.mem_map] at hw
+    obtain ⟨c, _, rfl⟩ := hw; exact clip_nonneg _ _
+  · intro w hw
+    simp only [getContributions, List.mem_map] at hw
+    obtain ⟨c, _, rfl⟩ := hw; exact clip_nonneg _ _
+
+/-- the weak and the strong family always have the same members, in the order
+Coherency, Modulus, APB, SFE, Interfacial restricted to the active ones -/
+theorem contributions_same_family (fin : α → Bool) (cs : List (Contrib α)) (oroF : α → α → α)
+    (r0w : α → α) (r Ls : α) :
+    (getContributions fin cs oroF r0w r Ls).weak.length = (cs.filter (fun c => c.active)).length ∧
+    (getContributions fin cs oroF r0w r Ls).strong.length = (cs.filter (fun c => c.active)).length := by
+  simp [getContributions]
+
+/-- phase-specific parameters are used when the mechanism is enabled for the phase, the global
+('all') ones otherwise -/
+theorem contrib_phase_wins (c : Contrib α) (h : c.phaseOn = true) :
+    c.weak = c.weakPhase ∧ c.strong = c.strongPhase := by
+  simp [Contrib.weak, Contrib.strong, h]
+
+theorem contrib_global (c : Contrib α) (h : c.phaseOn = false) :
+    c.weak = c.weakAll ∧ c.strong = c.strongAll := by
+  simp [Contrib.weak, Contrib.strong, h]
+
+/-- **defect D-C18-orowan (before the repair)**: with the Orowan term only cleaned of non-finite
+values, a finite negative Orowan value is handed on unchanged … -/
+theorem unclipped_orowan_passes_negative (fin : α → Bool) (cs : List (Contrib α)) (oroF : α → α → α)
+    (r0w : α → α) (r Ls : α) (hf : fin (oroF r Ls) = true) (hneg : oroF r Ls < 0) :
+    (getContributionsUnclipped fin cs oroF r0w r Ls).oro < 0 := by
+  simp [getContributionsUnclipped, clean, hf, hneg]
+
+end clipping
+
+/-! ## min rule -/
+section minrule
+variable {α : Type} [Field α] [LinearOrder α] [IsStrictOrderedRing α]
+
+theorem min3_eq_min (a b c : α) : min3 a b c = min (min a b) c := by
+  unfold min3
+  simp only
+  rcases lt_or_ge b a with h | h
+  · rw [if_pos h, min_eq_right h.le]
+    rcases lt_or_ge c b with h2 | h2
+    · rw [if_pos h2, min_eq_right h2.le]
+    · rw [if_neg (not_lt.mpr h2), min_eq_left h2]
+  · rw [if_neg (not_lt.mpr h), min_eq_left h]
+    rcases lt_or_ge c a with h2 | h2
+    · rw [if_pos h2, min_eq_right h2.le]
+    · rw [if_neg (not_lt.mpr h2), min_eq_left h2]
+
+/-- **min rule**: precipitate strength of a phase = Taylor factor × the smallest of the weak sum,
+the strong sum and the (cleaned) Orowan term -/
+theorem combine_strength (fin : α → Bool) (pw : α → α → α) (n M : α) (weak strong : List α) (oro : α) :
+    (combine fin pw n M weak strong oro).strength
+      = M * min (min (tausum fin pw n weak) (tausum fin pw n strong)) (clean fin oro) := by
+  simp [combine, min3_eq_min]
+
+/-- the reported branch values are the ones entering the minimum -/
+theorem combine_branches (fin : α → Bool) (pw : α → α → α) (n M : α) (weak strong : List α) (oro : α) :
+    (combine fin pw n M weak strong oro).tw = tausum fin pw n weak ∧
+    (combine fin pw n M weak strong oro).ts = tausum fin pw n strong ∧
+    (combine fin pw n M weak strong oro).oro = clean fin oro := by
+  simp [combine]
+
+/-- the comparison flag says exactly "the weak sum is the largest branch" -/
+theorem combine_flag (fin : α → Bool) (pw : α → α → α) (n M : α) (weak strong : List α) (oro : α) :
+    (combine fin pw n M weak strong oro).weakDominant = true ↔
+      tausum fin pw n strong < tausum fin pw n weak ∧ clean fin oro < tausum fin pw n weak := by
+  simp [combine]
+
+/-- the strength is at most M × every branch -/
+theorem combine_le_branches (fin : α → Bool) (pw : α → α → α) (n M : α) (weak strong : List α) (oro : α)
+    (hM : 0 ≤ M) :
+    (combine fin pw n M weak strong oro).strength ≤ M * tausum fin pw n weak ∧
+    (combine fin pw n M weak strong oro).strength ≤ M * tausum fin pw n strong ∧
+    (combine fin pw n M weak strong oro).strength ≤ M * clean fin oro := by
+  rw [combine_strength]
+  refine ⟨?_, ?_, ?_⟩ <;> apply mul_le_mul_of_nonneg_left _ hM
+  · exact le_trans (min_le_left _ _) (min_le_left _ _)
+  · exact le_trans (min_le_left _ _) (min_le_right _ _)
+  · exact min_le_right _ _
+
+/-- non-negative branches and Taylor factor give a non-negative strength -/
+theorem combine_nonneg (fin : α → Bool) (pw : α → α → α) (n M : α) (weak strong : List α) (oro : α)
+    (hM : 0 ≤ M) (hw : 0 ≤ tausum fin pw n weak) (hs : 0 ≤ tausum fin pw n strong) (ho : 0 ≤ oro) :
+    0 ≤ (combine fin pw n M weak strong oro).strength := by
+  rw [combine_strength]
+  exact mul_nonneg hM (le_min (le_min hw hs) (clean_nonneg fin oro ho))
+
+/-- one vanishing branch (all others ≥ 0) gives zero strength: in particular no cutting mechanism
+enabled (`weak = []`), or a non-finite Orowan term (no precipitates: Ls = 0) -/
+theorem combine_zero_of_orowan_zero (fin : α → Bool) (pw : α → α → α) (n M : α) (weak strong : List α) (oro : α)
+    (hw : 0 ≤ tausum fin pw n weak) (hs : 0 ≤ tausum fin pw n strong) (ho : clean fin oro = 0) :
+    (combine fin pw n M weak strong oro).strength = 0 := by
+  rw [combine_strength, ho, min_eq_right (le_min hw hs), mul_zero]
+
+theorem combine_zero_of_no_mechanism (fin : α → Bool) (pw : α → α → α) (n M : α) (oro : α) (ho : 0 ≤ oro) :
+    (combine fin pw n M [] [] oro).strength = 0 := by
+  rw [combine_strength]
+  simp [tausum, clean_nonneg fin oro ho]
+
+/-- **defect D-C18-orowan (before the repair)**: … and then the minimum IS that negative value, so
+the "strength" of the phase is negative (and `power(·, 1.8)` of it is NaN in precStrength/totalStrength) -/
+theorem unclipped_strength_negative (fin : α → Bool) (pw : α → α → α) (n M : α) (weak strong : List α) (oro : α)
+    (hM : 0 < M) (hw : 0 ≤ tausum fin pw n weak) (hs : 0 ≤ tausum fin pw n strong)
+    (hf : fin oro = true) (hneg : oro < 0) :
+    (combine fin pw n M weak strong oro).strength < 0 := by
+  rw [combine_strength]
+  have : clean fin oro = oro := by simp [clean, hf]
+  rw [this, min_eq_right (le_trans hneg.le (le_min hw hs))]
+  exact mul_neg_of_pos_of_neg hM hneg
+
+end minrule
+
+/-! ## superposition over ℝ -/
+section superposition
+
+/-- `np.power` on the reals -/
+noncomputable def rp (x y : ℝ) : ℝ := x ^ y
+
+theorem sum_rpow_nonneg (n : ℝ) (xs : List ℝ) (h : ∀ a ∈ xs, 0 ≤ a) :
+    0 ≤ (xs.map (fun a => rp a n)).sum := by
+  apply List.sum_nonneg
+  intro x hx
+  obtain ⟨a, ha, rfl⟩ := List.mem_map.mp hx
+  exact Real.rpow_nonneg (h a ha) n
+
+/-- superposition of non-negative parts is non-negative -/
+theorem superpose_nonneg (n : ℝ) (xs : List ℝ) (h : ∀ a ∈ xs, 0 ≤ a) : 0 ≤ superpose rp n xs :=
+  Real.rpow_nonneg (sum_rpow_nonneg n xs h) _
+
+theorem rpow_inv_cancel {a n : ℝ} (ha : 0 ≤ a) (hn : 0 < n) : (a ^ n) ^ (1 / n) = a := by
+  rw [← Real.rpow_mul ha, mul_one_div_cancel hn.ne', Real.rpow_one]
+
+/-- **superposition ≥ each part**: `(Σ aᵢⁿ)^(1/n) ≥ aⱼ` for non-negative parts and n > 0 -/
+theorem superpose_ge_mem (n : ℝ) (hn : 0 < n) (xs : List ℝ) (h : ∀ a ∈ xs, 0 ≤ a) (a : ℝ) (ha : a ∈ xs) :
+    a ≤ superpose rp n xs := by
+  have h1 : rp a n ≤ (xs.map (fun a => rp a n)).sum := by
+    apply List.single_le_sum
+    · intro x hx
+      obtain ⟨b, hb, rfl⟩ := List.mem_map.mp hx
+      exact Real.rpow_nonneg (h b hb) n
+    · exact List.mem_map.mpr ⟨a, ha, rfl⟩
+  have h2 : (rp a n) ^ (1 / n) ≤ ((xs.map (fun a => rp a n)).sum) ^ (1 / n) :=
+    Real.rpow_le_rpow (Real.rpow_nonneg (h a ha) n) h1 (by positivity)
+  rw [show rp a n = a ^ n from rfl, rpow_inv_cancel (h a ha) hn] at h2
+  exact h2
+
+/-- **superposition is non-decreasing in every part** (all parts raised at once, in particular one) -/
+theorem superpose_mono (n : ℝ) (hn : 0 < n) (xs ys : List ℝ)
+    (h : List.Forall₂ (fun a b => 0 ≤ a ∧ a ≤ b) xs ys) :
+    superpose rp n xs ≤ superpose rp n ys := by
+  have hx : ∀ a ∈ xs, 0 ≤ a := by
+    intro a ha
+    induction h with
+    | nil => simp at ha
+    | cons hab _ ih =>
+      rcases List.mem_cons.mp ha with rfl | h'
+      · exact hab.1
+      · exact ih h'
+  have hs : (xs.map (fun a => rp a n)).sum ≤ (ys.map (fun a => rp a n)).sum := by
+    induction h with
+    | nil => simp
+    | cons hab _ ih =>
+      simp only [List.map_cons, List.sum_cons]
+      have := Real.rpow_le_rpow hab.1 hab.2 hn.le
+      have ih' := ih (fun a ha => hx a (List.mem_cons_of_mem _ ha))
+      unfold rp; unfold rp at ih'; linarith
+  exact Real.rpow_le_rpow (sum_rpow_nonneg n xs hx) hs (by positivity)
+
+/-- a single part is returned unchanged (one phase: precStrength = that phase's strength) -/
+theorem superpose_single (n : ℝ) (hn : 0 < n) (a : ℝ) (ha : 0 ≤ a) : superpose rp n [a] = a := by
+  simp only [superpose, List.map_cons, List.map_nil, List.sum_cons, List.sum_nil, add_zero]
+  exact rpow_inv_cancel ha hn
+
+/-- all parts zero gives zero -/
+theorem superpose_zero (n : ℝ) (hn : 0 < n) (xs : List ℝ) (h : ∀ a ∈ xs, a = 0) : superpose rp n xs = 0 := by
+  have : (xs.map (fun a => rp a n)).sum = 0 := by
+    apply List.sum_eq_zero
+    intro x hx
+    obtain ⟨b, hb, rfl⟩ := List.mem_map.mp hx
+    rw [h b hb]; exact Real.zero_rpow hn.ne'
+  rw [superpose, this]; exact Real.zero_rpow (by positivity)
+
+/-- the weak / strong sums are ≥ 0 whatever `isfinite` says -/
+theorem tausum_nonneg (fin : ℝ → Bool) (n : ℝ) (cs : List ℝ) (h : ∀ a ∈ cs, 0 ≤ a) : 0 ≤ tausum fin rp n cs := by
+  unfold tausum
+  split
+  · exact le_refl _
+  · exact clean_nonneg fin _ (superpose_nonneg n _ h)
+
+/-- **precipitate strength of a phase is ≥ 0** for every parameter set, radius and spacing
+(model of the repaired code, Taylor factor ≥ 0) -/
+theorem phaseStrength_nonneg (fin : ℝ → Bool) (n M : ℝ) (hM : 0 ≤ M) (cs : List (Contrib ℝ))
+    (oroF : ℝ → ℝ → ℝ) (r0w : ℝ → ℝ) (r Ls : ℝ) :
+    0 ≤ (phaseStrength fin rp n M cs oroF r0w r Ls).strength := by
+  obtain ⟨hw, hs, ho⟩ := contributions_nonneg fin cs oroF r0w r Ls
+  exact combine_nonneg fin rp n M _ _ _ hM (tausum_nonneg fin n _ hw) (tausum_nonneg fin n _ hs) ho
+
+/-- **zero precipitate strength when there are no precipitates**: the Orowan formula divides by the
+spacing and takes log(2r/ri); when its value is not finite (r = Ls = 0) the strength is exactly 0 -/
+theorem phaseStrength_zero_no_precipitates (fin : ℝ → Bool) (n M : ℝ) (cs : List (Contrib ℝ))
+    (oroF : ℝ → ℝ → ℝ) (r0w : ℝ → ℝ) (r Ls : ℝ) (hnf : fin (oroF r Ls) = false) :
+    (phaseStrength fin rp n M cs oroF r0w r Ls).strength = 0 := by
+  obtain ⟨hw, hs, ho⟩ := contributions_nonneg fin cs oroF r0w r Ls
+  apply combine_zero_of_orowan_zero fin rp n M _ _ _ (tausum_nonneg fin n _ hw) (tausum_nonneg fin n _ hs)
+  have : (getContributions fin cs oroF r0w r Ls).oro = 0 := by
+    simp [getContributions, clip_not_finite fin _ hnf]
+  rw [this]; unfold clean; split <;> rfl
+
+/-- sub-core radii (Orowan formula negative): the repaired code gives strength 0, not a negative number -/
+theorem phaseStrength_zero_subcore (fin : ℝ → Bool) (n M : ℝ) (cs : List (Contrib ℝ))
+    (oroF : ℝ → ℝ → ℝ) (r0w : ℝ → ℝ) (r Ls : ℝ) (hneg : oroF r Ls < 0) :
+    (phaseStrength fin rp n M cs oroF r0w r Ls).strength = 0 := by
+  obtain ⟨hw, hs, ho⟩ := contributions_nonneg fin cs oroF r0w r Ls
+  apply combine_zero_of_orowan_zero fin rp n M _ _ _ (tausum_nonneg fin n _ hw) (tausum_nonneg fin n _ hs)
+  have : (getContributions fin cs oroF r0w r Ls).oro = 0 := by
+    simp [getContributions, clip_negative fin _ hneg]
+  rw [this]; unfold clean; split <;> rfl
+
+/-- **multi-phase precipitate strength ≥ 0**, whichever exponent the weak/strong census selects -/
+theorem precRow_nonneg (fin : ℝ → Bool) (nS nM : ℝ) (phases : List (Combined ℝ))
+    (h : ∀ c ∈ phases, 0 ≤ c.strength) : 0 ≤ precRow fin rp nS nM phases := by
+  unfold precRow
+  apply superpose_nonneg
+  intro a ha
+  obtain ⟨c, hc, rfl⟩ := List.mem_map.mp ha
+  exact clean_nonneg fin _ (h c hc)
+
+/-- with finite phase strengths the multi-phase strength is at least every phase's strength -/
+theorem precRow_ge_phase (fin : ℝ → Bool) (nS nM : ℝ) (hS : 0 < nS) (hMx : 0 < nM) (phases : List (Combined ℝ))
+    (h : ∀ c ∈ phases, 0 ≤ c.strength) (c : Combined ℝ) (hc : c ∈ phases) (hf : fin c.strength = true) :
+    c.strength ≤ precRow fin rp nS nM phases := by
+  unfold precRow
+  have hmem : c.strength ∈ phases.map (fun c => clean fin c.strength) :=
+    List.mem_map.mpr ⟨c, hc, by simp [clean, hf]⟩
+  have hnn : ∀ a ∈ phases.map (fun c => clean fin c.strength), 0 ≤ a := by
+    intro a ha
+    obtain ⟨d, hd, rfl⟩ := List.mem_map.mp ha
+    exact clean_nonneg fin _ (h d hd)
+  simp only
+  split
+  · exact superpose_ge_mem nS hS _ hnn _ hmem
+  · exact superpose_ge_mem nM hMx _ hnn _ hmem
+
+/-- **total strength ≥ each of its parts** (base, solid solution, precipitates; all ≥ 0, n > 0) -/
+theorem totalStrength_ge_parts (n : ℝ) (hn : 0 < n) (s0 ss pr : ℝ) (h0 : 0 ≤ s0) (h1 : 0 ≤ ss) (h2 : 0 ≤ pr) :
+    s0 ≤ totalStrength rp n s0 ss pr ∧ ss ≤ totalStrength rp n s0 ss pr ∧ pr ≤ totalStrength rp n s0 ss pr := by
+  have hnn : ∀ a ∈ [s0, ss, pr], 0 ≤ a := by
+    intro a ha; simp at ha; rcases ha with rfl | rfl | rfl <;> assumption
+  exact ⟨superpose_ge_mem n hn _ hnn _ (by simp), superpose_ge_mem n hn _ hnn _ (by simp),
+         superpose_ge_mem n hn _ hnn _ (by simp)⟩
+
+/-- **total strength is non-decreasing in each part** -/
+theorem totalStrength_mono (n : ℝ) (hn : 0 < n) (s0 ss pr s0' ss' pr' : ℝ)
+    (h0 : 0 ≤ s0) (h1 : 0 ≤ ss) (h2 : 0 ≤ pr) (l0 : s0 ≤ s0') (l1 : ss ≤ ss') (l2 : pr ≤ pr') :
+    totalStrength rp n s0 ss pr ≤ totalStrength rp n s0' ss' pr' := by
+  apply superpose_mono n hn
+  exact List.Forall₂.cons ⟨h0, l0⟩ (List.Forall₂.cons ⟨h1, l1⟩ (List.Forall₂.cons ⟨h2, l2⟩ List.Forall₂.nil))
+
+theorem totalStrength_nonneg (n s0 ss pr : ℝ) (h0 : 0 ≤ s0) (h1 : 0 ≤ ss) (h2 : 0 ≤ pr) :
+    0 ≤ totalStrength rp n s0 ss pr := by
+  apply superpose_nonneg
+  intro a ha; simp at ha; rcases ha with rfl | rfl | rfl <;> assumption
+
+end superposition
+
+/-! ## edge / screw limits of the traced formulas -/
+section limits
+variable {α : Type} [Field α] [LinearOrder α] [IsStrictOrderedRing α] [Trans α]
+variable (G b nu ri theta psi J eps Gp w1 w2 yAPB s beta V ySFM ySFP bp gamma r Ls r0 : α)
+
+/-- what "θ = 90°" means for the transcendental atoms -/
+structure AtEdge (theta : α) : Prop where
+  sin_eq : Trans.sin theta = (1 : α)
+  cos_eq : Trans.cos theta = (0 : α)
+  sin_half_pi : Trans.sin (Trans.pi / (2 : α)) = (1 : α)
+  cos_two : Trans.cos ((2 : α) * theta) = Trans.cos ((2 : α) * (Trans.pi / (2 : α)))
+
+/-- what "θ = 0°" means for the atoms (the screw formulas were traced with the concrete values
+sin 0 = 0 and cos 0 = 1 computed by NumPy) -/
+structure AtScrew (theta : α) : Prop where
+  sin_eq : Trans.sin theta = (0 : α)
+  cos_eq : Trans.cos theta = (1 : α)
+  cos_two : Trans.cos ((2 : α) * theta) = (1 : α)
+
+theorem two_cancel (a t : α) : ((2 : α) * a) / ((2 : α) * t) = a / t :=
+  mul_div_mul_left a t two_ne_zero
+
+theorem npow_two (x : α) : npow x 2 = x * x := rfl
+theorem npow_three (x : α) : npow x 3 = x * x * x := rfl
+
+/-- line tension: the traced Tcomplex at 90° is the expression used inside every edge formula -/
+theorem Tcomplex_edge (h : AtEdge theta) :
+    sf_Tcomplex G b nu ri theta psi J eps Gp w1 w2 yAPB s beta V ySFM ySFP bp gamma r Ls r0 = sf_Tcomplex G b nu ri (Trans.pi / (2 : α)) psi J eps Gp w1 w2 yAPB s beta V ySFM ySFP bp gamma r Ls r0 := by
+  simp only [sf_Tcomplex, h.sin_eq, h.sin_half_pi]
+
+/-- **modulus, weak, 90°** (|G − Gp| is written |Gp − G| in the edge formula) -/
+theorem modulusWeak_edge (h : AtEdge theta) (habs : Trans.abs (G - Gp) = Trans.abs (Gp - G)) :
+    sf_modulusWeak G b nu ri theta psi J eps Gp w1 w2 yAPB s beta V ySFM ySFP bp gamma r Ls r0 = sf_modulusWeakEdge G b nu ri theta psi J eps Gp w1 w2 yAPB s beta V ySFM ySFP bp gamma r Ls r0 := by
+  simp only [sf_modulusWeak, sf_modulusWeakEdge, h.sin_eq, h.sin_half_pi, habs]
+
+/-- **modulus, weak, 0°** -/
+theorem modulusWeak_screw (h : AtScrew theta) (habs : Trans.abs (G - Gp) = Trans.abs (Gp - G)) :
+    sf_modulusWeak G b nu ri theta psi J eps Gp w1 w2 yAPB s beta V ySFM ySFP bp gamma r Ls r0 = sf_modulusWeakScrew G b nu ri theta psi J eps Gp w1 w2 yAPB s beta V ySFM ySFP bp gamma r Ls r0 := by
+  simp only [sf_modulusWeak, sf_modulusWeakScrew, h.sin_eq, habs, npow_two, mul_zero]
+
+/-- **APB, weak, 90°** -/
+theorem APBweak_edge (h : AtEdge theta) :
+    sf_APBweak G b nu ri theta psi J eps Gp w1 w2 yAPB s beta V ySFM ySFP bp gamma r Ls r0 = sf_APBweakEdge G b nu ri theta psi J eps Gp w1 w2 yAPB s beta V ySFM ySFP bp gamma r Ls r0 := by
+  simp only [sf_APBweak, sf_APBweakEdge, h.sin_eq, h.sin_half_pi, npow_two, mul_assoc (2 : α) yAPB r, two_cancel,
+    mul_comm yAPB r]
+  ring
+
+/-- **APB, weak, 0°** -/
+theorem APBweak_screw (h : AtScrew theta) :
+    sf_APBweak G b nu ri theta psi J eps Gp w1 w2 yAPB s beta V ySFM ySFP bp gamma r Ls r0 = sf_APBweakScrew G b nu ri theta psi J eps Gp w1 w2 yAPB s beta V ySFM ySFP bp gamma r Ls r0 := by
+  simp only [sf_APBweak, sf_APBweakScrew, h.sin_eq, npow_two, mul_zero, mul_assoc (2 : α) yAPB r, two_cancel,
+    mul_comm yAPB r]
+  ring
+
+/-- **stacking fault, weak, 90°** (narrow-fault formula) -/
+theorem SFEweak_edge (h : AtEdge theta) :
+    sf_SFEweak G b nu ri theta psi J eps Gp w1 w2 yAPB s beta V ySFM ySFP bp gamma r Ls r0 = sf_SFEweakNarrowEdge G b nu ri theta psi J eps Gp w1 w2 yAPB s beta V ySFM ySFP bp gamma r Ls r0 := by
+  simp only [sf_SFEweak, sf_SFEweakNarrowEdge, h.sin_eq, h.sin_half_pi, h.cos_two,
+    mul_assoc (2 : α) (ySFM - ySFP), two_cancel]
+
+/-- **stacking fault, weak, 0°** -/
+theorem SFEweak_screw (h : AtScrew theta) :
+    sf_SFEweak G b nu ri theta psi J eps Gp w1 w2 yAPB s beta V ySFM ySFP bp gamma r Ls r0 = sf_SFEweakNarrowScrew G b nu ri theta psi J eps Gp w1 w2 yAPB s beta V ySFM ySFP bp gamma r Ls r0 := by
+  simp only [sf_SFEweak, sf_SFEweakNarrowScrew, h.sin_eq, h.cos_two, npow_two, mul_zero,
+    mul_assoc (2 : α) (ySFM - ySFP), two_cancel]
+
+/-- **stacking fault, strong, 90°**: the edge formula is J × the mixed one (J = 1 by default) -/
+theorem SFEstrong_edge (h : AtEdge theta) :
+    sf_SFEstrongNarrowEdge G b nu ri theta psi J eps Gp w1 w2 yAPB s beta V ySFM ySFP bp gamma r Ls r0 = J * sf_SFEstrong G b nu ri theta psi J eps Gp w1 w2 yAPB s beta V ySFM ySFP bp gamma r Ls r0 := by
+  simp only [sf_SFEstrong, sf_SFEstrongNarrowEdge, h.cos_two]
+  ring
+
+/-- **stacking fault, strong, 0°** -/
+theorem SFEstrong_screw (h : AtScrew theta) :
+    sf_SFEstrongNarrowScrew G b nu ri theta psi J eps Gp w1 w2 yAPB s beta V ySFM ySFP bp gamma r Ls r0 = J * sf_SFEstrong G b nu ri theta psi J eps Gp w1 w2 yAPB s beta V ySFM ySFP bp gamma r Ls r0 := by
+  simp only [sf_SFEstrong, sf_SFEstrongNarrowScrew, h.cos_two]
+  ring
+
+/-- **interfacial, weak, 90°** -/
+theorem interfacialWeak_edge (h : AtEdge theta) :
+    sf_interfacialWeak G b nu ri theta psi J eps Gp w1 w2 yAPB s beta V ySFM ySFP bp gamma r Ls r0 = sf_interfacialWeakEdge G b nu ri theta psi J eps Gp w1 w2 yAPB s beta V ySFM ySFP bp gamma r Ls r0 := by
+  simp only [sf_interfacialWeak, sf_interfacialWeakEdge, h.sin_eq, h.sin_half_pi,
+    mul_assoc (2 : α) gamma b, two_cancel]
+
+/-- **interfacial, weak, 0°** -/
+theorem interfacialWeak_screw (h : AtScrew theta) :
+    sf_interfacialWeak G b nu ri theta psi J eps Gp w1 w2 yAPB s beta V ySFM ySFP bp gamma r Ls r0 = sf_interfacialWeakScrew G b nu ri theta psi J eps Gp w1 w2 yAPB s beta V ySFM ySFP bp gamma r Ls r0 := by
+  simp only [sf_interfacialWeak, sf_interfacialWeakScrew, h.sin_eq, npow_two, mul_zero,
+    mul_assoc (2 : α) gamma b, two_cancel]
+
+/-- **interfacial, strong** (independent of the dislocation character) -/
+theorem interfacialStrong_any :
+    sf_interfacialStrongOld G b nu ri theta psi J eps Gp w1 w2 yAPB s beta V ySFM ySFP bp gamma r Ls r0 = J * sf_interfacialStrong G b nu ri theta psi J eps Gp w1 w2 yAPB s beta V ySFM ySFP bp gamma r Ls r0 := by
+  simp only [sf_interfacialStrong, sf_interfacialStrongOld]
+  ring
+
+/-- **coherency, strong, 0°**: 2cos² + 2.1352 sin² = 2 -/
+theorem coherencyStrong_screw (h : AtScrew theta) :
+    sf_coherencyStrongScrew G b nu ri theta psi J eps Gp w1 w2 yAPB s beta V ySFM ySFP bp gamma r Ls r0 = J * sf_coherencyStrong G b nu ri theta psi J eps Gp w1 w2 yAPB s beta V ySFM ySFP bp gamma r Ls r0 := by
+  simp only [sf_coherencyStrong, sf_coherencyStrongScrew, h.sin_eq, h.cos_eq, npow_two, mul_zero, mul_one,
+    add_zero]
+  ring
+
+/-- **coherency, weak, 90°** — reduced form: coefficient 4.1127 (the edge formula has √(592/35) =
+4.11270…, equal to 5 digits: see `coherency_weak_edge_coefficient`) -/
+theorem coherencyWeak_edge_reduced (h : AtEdge theta) :
+    sf_coherencyWeak G b nu ri theta psi J eps Gp w1 w2 yAPB s beta V ySFM ySFP bp gamma r Ls r0 = ((41127 : α) / 10000) / Ls *
+      Trans.sqrt (npow G 3 * npow eps 3 * npow r 3 * b / sf_Tcomplex G b nu ri theta psi J eps Gp w1 w2 yAPB s beta V ySFM ySFP bp gamma r Ls r0) := by
+  simp only [sf_coherencyWeak, sf_Tcomplex, h.sin_eq, h.cos_eq, npow_two, mul_zero, mul_one, zero_add]
+
+/-- **coherency, weak, 0°** — reduced form: coefficient 1.3416 (the screw formula has √(9/5) = 1.34164…) -/
+theorem coherencyWeak_screw_reduced (h : AtScrew theta) :
+    sf_coherencyWeak G b nu ri theta psi J eps Gp w1 w2 yAPB s beta V ySFM ySFP bp gamma r Ls r0 = ((1677 : α) / 1250) / Ls *
+      Trans.sqrt (npow G 3 * npow eps 3 * npow r 3 * b / sf_Tcomplex G b nu ri theta psi J eps Gp w1 w2 yAPB s beta V ySFM ySFP bp gamma r Ls r0) := by
+  simp only [sf_coherencyWeak, sf_Tcomplex, h.sin_eq, h.cos_eq, npow_two, mul_zero, mul_one, add_zero]
+
+/-- **coherency, strong, 90°** — reduced form: coefficient 2.1352 (edge formula: √2·3^(3/8) = 2.13518…) -/
+theorem coherencyStrong_edge_reduced (h : AtEdge theta) :
+    sf_coherencyStrong G b nu ri theta psi J eps Gp w1 w2 yAPB s beta V ySFM ySFP bp gamma r Ls r0 = ((2669 : α) / 1250) / Ls *
+      Trans.pow (npow (sf_Tcomplex G b nu ri theta psi J eps Gp w1 w2 yAPB s beta V ySFM ySFP bp gamma r Ls r0) 3 * G * eps * r / npow b 3) ((1 : α) / 4) := by
+  simp only [sf_coherencyStrong, sf_Tcomplex, h.sin_eq, h.cos_eq, npow_two, mul_zero, mul_one, zero_add]
+
+/-- squared form of the 90° coherency-weak agreement: with `√x·√x = x` on the two radicands,
+`mixed² · c_edge = edge² · 4.1127²`, where `c_edge` is the double closest to 592/35 -/
+theorem coherencyWeak_edge_sq (h : AtEdge theta) (hLs : Ls ≠ 0)
+    (hT : sf_Tcomplex G b nu ri theta psi J eps Gp w1 w2 yAPB s beta V ySFM ySFP bp gamma r Ls r0 ≠ 0)
+    (hsq : ∀ x : α, 0 ≤ x → Trans.sqrt x * Trans.sqrt x = x)
+    (hX : 0 ≤ npow G 3 * npow eps 3 * npow r 3 * b / sf_Tcomplex G b nu ri theta psi J eps Gp w1 w2 yAPB s beta V ySFM ySFP bp gamma r Ls r0) :
+    sf_coherencyWeak G b nu ri theta psi J eps Gp w1 w2 yAPB s beta V ySFM ySFP bp gamma r Ls r0 * sf_coherencyWeak G b nu ri theta psi J eps Gp w1 w2 yAPB s beta V ySFM ySFP bp gamma r Ls r0 * ((3382857142857143 : α) / 200000000000000)
+      = sf_coherencyWeakEdge G b nu ri theta psi J eps Gp w1 w2 yAPB s beta V ySFM ySFP bp gamma r Ls r0 * sf_coherencyWeakEdge G b nu ri theta psi J eps Gp w1 w2 yAPB s beta V ySFM ySFP bp gamma r Ls r0 * (((41127 : α) / 10000) * ((41127 : α) / 10000)) := by
+  rw [coherencyWeak_edge_reduced G b nu ri theta psi J eps Gp w1 w2 yAPB s beta V ySFM ySFP bp gamma r Ls r0 h]
+  have hT' := hT
+  have hX' := hX
+  simp only [sf_Tcomplex, h.sin_eq] at hT' hX'
+  have e1 : sf_coherencyWeakEdge G b nu ri theta psi J eps Gp w1 w2 yAPB s beta V ySFM ySFP bp gamma r Ls r0 * sf_coherencyWeakEdge G b nu ri theta psi J eps Gp w1 w2 yAPB s beta V ySFM ySFP bp gamma r Ls r0
+      = ((3382857142857143 : α) / 200000000000000) * npow G 3 * b * npow eps 3 * npow r 3 /
+        (npow Ls 2 * sf_Tcomplex G b nu ri theta psi J eps Gp w1 w2 yAPB s beta V ySFM ySFP bp gamma r Ls r0) := by
+    simp only [sf_coherencyWeakEdge, sf_Tcomplex, h.sin_eq, h.sin_half_pi]
+    apply hsq
+    have : ((3382857142857143 : α) / 200000000000000) * npow G 3 * b * npow eps 3 * npow r 3 /
+        (npow Ls 2 * sf_Tcomplex G b nu ri theta psi J eps Gp w1 w2 yAPB s beta V ySFM ySFP bp gamma r Ls r0)
+        = ((3382857142857143 : α) / 200000000000000) / (Ls * Ls) *
+          (npow G 3 * npow eps 3 * npow r 3 * b / sf_Tcomplex G b nu ri theta psi J eps Gp w1 w2 yAPB s beta V ySFM ySFP bp gamma r Ls r0) := by
+      simp only [npow_two]; field_simp
+    simp only [sf_Tcomplex, h.sin_eq] at this
+    rw [this]
+    exact mul_nonneg (div_nonneg (by norm_num) (mul_self_nonneg Ls)) hX'
+  rw [e1]
+  have e2 : ∀ c x : α, 0 ≤ x → (c / Ls * Trans.sqrt x) * (c / Ls * Trans.sqrt x) = c * c / (Ls * Ls) * x := by
+    intro c x hx
+    have := hsq x hx
+    calc (c / Ls * Trans.sqrt x) * (c / Ls * Trans.sqrt x)
+        = c * c / (Ls * Ls) * (Trans.sqrt x * Trans.sqrt x) := by field_simp
+      _ = c * c / (Ls * Ls) * x := by rw [this]
+  rw [e2 _ _ hX]
+  simp only [npow_two]
+  field_simp
+
+/-- the rounded published coefficients agree with the edge / screw closed forms to 5 digits:
+4.1127² ≈ 592/35, 1.3416² ≈ 9/5, 2.1352⁸ ≈ (√2·3^(3/8))⁸ = 432 -/
+theorem coherency_weak_edge_coefficient :
+    |((41127 : ℚ) / 10000) ^ 2 / (592 / 35) - 1| < 1 / 500000 := by norm_num [abs_lt]
+
+theorem coherency_weak_screw_coefficient :
+    |((1677 : ℚ) / 1250) ^ 2 / (9 / 5) - 1| < 1 / 10000 := by norm_num [abs_lt]
+
+theorem coherency_strong_edge_coefficient :
+    |((2669 : ℚ) / 1250) ^ 8 / 432 - 1| < 1 / 10000 := by norm_num [abs_lt]
+
+/-- **Orowan below the core radius**: with positive parameters the traced Orowan formula has the
+sign of log(2r/ri) — negative for 2r < ri (this is the value the unrepaired code handed on) -/
+theorem orowan_sign (hJ : 0 < J) (hG : 0 < G) (hb : 0 < b) (hLs : 0 < Ls)
+    (hpi : 0 < (Trans.pi : α)) (hsq : 0 < Trans.sqrt ((1 : α) - nu))
+    (hlog : Trans.log ((2 : α) * r / ri) < 0) :
+    sf_orowan G b nu ri theta psi J eps Gp w1 w2 yAPB s beta V ySFM ySFP bp gamma r Ls r0 < 0 := by
+  simp only [sf_orowan]
+  apply mul_neg_of_pos_of_neg _ hlog
+  exact div_pos (mul_pos (mul_pos hJ hG) hb) (mul_pos (mul_pos (mul_pos two_pos hpi) hsq) hLs)
+
+end limits
+
+/-! ## the atoms over ℝ (non-vacuity of the hypotheses above) -/
+section real
+
+noncomputable instance instTransReal : Trans ℝ where
+  pi := Real.pi
+  sqrt := Real.sqrt
+  cbrt := fun x => if 0 ≤ x then x ^ ((1:ℝ)/3) else -((-x) ^ ((1:ℝ)/3))
+  exp := Real.exp
+  log := Real.log
+  sin := Real.sin
+  cos := Real.cos
+  tan := Real.tan
+  arcsin := fun x => x
+  arccos := fun x => x
+  arctan := fun x => x
+  tanh := fun x => x
+  arctanh := fun x => x
+  arccosh := fun x => x
+  pow := fun x y => x ^ y
+  abs := fun x => |x|
+
+theorem real_atEdge : AtEdge (Real.pi / 2 : ℝ) where
+  sin_eq := Real.sin_pi_div_two
+  cos_eq := Real.cos_pi_div_two
+  sin_half_pi := Real.sin_pi_div_two
+  cos_two := rfl
+
+theorem real_atScrew : AtScrew (0 : ℝ) where
+  sin_eq := Real.sin_zero
+  cos_eq := Real.cos_zero
+  cos_two := by show Real.cos (2 * 0) = 1; simp
+
+theorem real_abs_symm (a b : ℝ) : (Trans.abs (a - b) : ℝ) = Trans.abs (b - a) := abs_sub_comm a b
+
+theorem real_sqrt_sq (x : ℝ) (hx : 0 ≤ x) : (Trans.sqrt x : ℝ) * Trans.sqrt x = x := Real.mul_self_sqrt hx
+
+/-- **D-C18-orowan over ℝ**: for 0 < 2r < ri and positive material parameters (ν < 1) the Orowan
+formula of the code is negative -/
+theorem orowan_negative_subcore (G b nu ri theta psi J eps Gp w1 w2 yAPB s beta V ySFM ySFP bp gamma r Ls r0 : ℝ)
+    (hJ : 0 < J) (hG : 0 < G) (hb : 0 < b) (hLs : 0 < Ls) (hnu : nu < 1)
+    (hr : 0 < r) (hri : 2 * r < ri) :
+    sf_orowan G b nu ri theta psi J eps Gp w1 w2 yAPB s beta V ySFM ySFP bp gamma r Ls r0 < 0 := by
+  apply orowan_sign G b nu ri theta psi J eps Gp w1 w2 yAPB s beta V ySFM ySFP bp gamma r Ls r0 hJ hG hb hLs Real.pi_pos (Real.sqrt_pos.mpr (by linarith))
+  apply Real.log_neg
+  · exact div_pos (by linarith) (by linarith)
+  · rw [div_lt_one (by linarith)]; exact hri
+
+end real
+
+/-! ## Zener drag -/
+section zener
+variable {α : Type} [Field α] [LinearOrder α] [IsStrictOrderedRing α]
+
+/-- `constrained` in terms of the drag `d = α·M·γ·z` -/
+theorem constrained_def (alpha M gbe z g : α) :
+    constrained alpha M gbe z g =
+      (if g + alpha * M * gbe * z < 0 then g + alpha * M * gbe * z
+       else if 0 < g - alpha * M * gbe * z then g - alpha * M * gbe * z else 0) := rfl
+
+/-- **Zener drag never reverses a boundary**: the constrained rate is 0 or has the sign of the
+unconstrained one -/
+theorem constrained_sign (alpha M gbe z g : α) (hd : 0 ≤ alpha * M * gbe * z) :
+    constrained alpha M gbe z g = 0 ∨ (0 < constrained alpha M gbe z g ∧ 0 < g) ∨
+      (constrained alpha M gbe z g < 0 ∧ g < 0) := by
+  rw [constrained_def]
+  split
+  · next h => right; right; exact ⟨h, by linarith⟩
+  · split
+    · next h => right; left; exact ⟨h, by linarith⟩
+    · left; rfl
+
+/-- **Zener drag never accelerates a boundary** -/
+theorem constrained_abs_le (alpha M gbe z g : α) (hd : 0 ≤ alpha * M * gbe * z) :
+    |constrained alpha M gbe z g| ≤ |g| := by
+  rw [constrained_def]
+  split
+  · next h =>
+    rw [abs_of_neg h, abs_of_neg (by linarith : g < 0)]; linarith
+  · split
+    · next h =>
+      rw [abs_of_pos h, abs_of_pos (by linarith : 0 < g)]; linarith
+    · rw [abs_zero]; exact abs_nonneg _
+
+/-- the exact amount: a moving boundary is slowed by exactly the drag -/
+theorem constrained_moving (alpha M gbe z g : α) (hd : 0 ≤ alpha * M * gbe * z)
+    (h : constrained alpha M gbe z g ≠ 0) :
+    |constrained alpha M gbe z g| = |g| - alpha * M * gbe * z := by
+  rw [constrained_def] at h ⊢
+  split
+  · next h1 => rw [abs_of_neg h1, abs_of_neg (by linarith : g < 0)]; ring
+  · next h1 =>
+    split
+    · next h2 => rw [abs_of_pos h2, abs_of_pos (by linarith : 0 < g)]
+    · next h2 => rw [if_neg h1, if_neg h2] at h; exact absurd rfl h
+
+/-- **strong enough drag freezes the boundary** -/
+theorem constrained_frozen (alpha M gbe z g : α) (h : |g| ≤ alpha * M * gbe * z) :
+    constrained alpha M gbe z g = 0 := by
+  rw [constrained_def]
+  have h1 := neg_abs_le g
+  have h2 := le_abs_self g
+  rw [if_neg (by linarith), if_neg (by linarith)]
+
+/-- **… and the whole structure when the drag ≥ max |g|** -/
+theorem rate_frozen (alpha M gbe z : α) (n : Nat) (psd size bounds : Nat → α)
+    (h : ∀ j, j ≤ n → |grainGrowth alpha M gbe n psd size bounds j| ≤ alpha * M * gbe * z) :
+    ∀ j, j ≤ n → rate alpha M gbe z n psd size bounds j = 0 :=
+  fun j hj => constrained_frozen _ _ _ _ _ (h j hj)
+
+/-- no drag, no change -/
+theorem constrained_free (alpha M gbe g : α) : constrained alpha M gbe 0 g = g := by
+  rw [constrained_def]
+  simp only [mul_zero, add_zero, sub_zero]
+  split
+  · rfl
+  · next h =>
+    split
+    · rfl
+    · next h2 => exact (le_antisymm (not_lt.mp h2) (not_lt.mp h)).symm
+
+/-- more drag, slower boundary (monotone in the drag) -/
+theorem constrained_antitone (alpha M gbe z z' g : α) (hd : 0 ≤ alpha * M * gbe * z)
+    (hz : alpha * M * gbe * z ≤ alpha * M * gbe * z') :
+    |constrained alpha M gbe z' g| ≤ |constrained alpha M gbe z g| := by
+  by_cases h0 : constrained alpha M gbe z' g = 0
+  · rw [h0, abs_zero]; exact abs_nonneg _
+  · have hd' : 0 ≤ alpha * M * gbe * z' := le_trans hd hz
+    rw [constrained_moving _ _ _ _ _ hd' h0]
+    by_cases h1 : constrained alpha M gbe z g = 0
+    · exfalso
+      have : |g| ≤ alpha * M * gbe * z := by
+        by_contra hc
+        have hc := not_le.mp hc
+        rw [constrained_def] at h1
+        rcases le_or_gt 0 g with hg | hg
+        · rw [abs_of_nonneg hg] at hc
+          rw [if_neg (by linarith), if_pos (by linarith)] at h1; linarith
+        · rw [abs_of_neg hg] at hc
+          rw [if_pos (by linarith)] at h1; linarith
+      exact h0 (constrained_frozen _ _ _ _ _ (le_trans this hz))
+    · rw [constrained_moving _ _ _ _ _ hd h1]; linarith
+
+end zener
+
+/-! ## grain volume and number -/
+section grain
+variable {α : Type} [Field α] [LinearOrder α] [IsStrictOrderedRing α]
+
+theorem foldl_add_range (n : Nat) (f : Nat → α) (a : α) :
+    (List.range n).foldl (fun s i => s + f i) a = a + ∑ i ∈ range n, f i := by
+  induction n with
+  | zero => simp
+  | succ k ih => rw [List.range_succ, List.foldl_append, ih, Finset.sum_range_succ]; simp [add_assoc]
+
+theorem sumTo_eq_sum (n : Nat) (f : Nat → α) : sumTo n f = ∑ i ∈ range n, f i := by
+  unfold sumTo; rw [foldl_add_range]; simp
+
+theorem moment_eq_sum (k n : Nat) (psd size : Nat → α) :
+    moment k n psd size = ∑ i ∈ range n, psd i * npow (size i) k := sumTo_eq_sum _ _
+
+/-- moments are linear in the distribution -/
+theorem moment_scale (k n : Nat) (psd size : Nat → α) (c : α) :
+    moment k n (fun i => psd i * c) size = moment k n psd size * c := by
+  rw [moment_eq_sum, moment_eq_sum, Finset.sum_mul]
+  apply Finset.sum_congr rfl; intro i _; ring
+
+/-- **grain volume**: after Normalize the third moment is exactly 1 (non-empty distribution) -/
+theorem normalize_third_moment (n : Nat) (psd size : Nat → α) (h : moment 3 n psd size ≠ 0) :
+    moment 3 n (Grain.normalize n psd size) size = 1 := by
+  unfold Grain.normalize
+  rw [moment_scale]; field_simp
+
+/-- Normalize rescales every moment by the same factor … -/
+theorem normalize_moment (k n : Nat) (psd size : Nat → α) :
+    moment k n (Grain.normalize n psd size) size = moment k n psd size * (1 / moment 3 n psd size) := by
+  unfold Grain.normalize; rw [moment_scale]
+
+/-- … so the mean grain size Rm = cbrt(M3/M0) does not change under Normalize -/
+theorem normalize_mean_size_ratio (n : Nat) (psd size : Nat → α) (h : moment 3 n psd size ≠ 0) :
+    moment 3 n (Grain.normalize n psd size) size / moment 0 n (Grain.normalize n psd size) size
+      = moment 3 n psd size / moment 0 n psd size := by
+  rw [normalize_moment, normalize_moment]
+  by_cases h0 : moment 0 n psd size = 0
+  · simp [h0]
+  · field_simp
+
+theorem normalize_rm [Trans α] (n : Nat) (psd size : Nat → α) (h : moment 3 n psd size ≠ 0) :
+    rm n (Grain.normalize n psd size) size = rm n psd size := by
+  unfold rm; rw [normalize_mean_size_ratio n psd size h]
+
+/-- Normalize keeps a non-negative distribution non-negative when the volume is positive -/
+theorem normalize_nonneg (n : Nat) (psd size : Nat → α) (h : 0 < moment 3 n psd size)
+    (hp : ∀ i, 0 ≤ psd i) (i : Nat) : 0 ≤ Grain.normalize n psd size i := by
+  unfold Grain.normalize; exact mul_nonneg (hp i) (by positivity)
+
+/-- the number of grains is the zeroth moment -/
+theorem moment_zero (n : Nat) (psd size : Nat → α) : moment 0 n psd size = ∑ i ∈ range n, psd i := by
+  rw [moment_eq_sum]; apply Finset.sum_congr rfl; intro i _; simp [npow]
+
+/-- **transport does not create grains**: with zero nucleation the rate of change of the number
+of grains is what leaves through the two ends of the grid, which is ≤ 0 (C07 budget + one-sided
+ends), for ANY growth field — pinned or not -/
+theorem transport_number_nonincreasing (n : Nat) (hn : 0 < n) (growth psd bounds : Nat → α)
+    (hpsd : ∀ i, 0 ≤ psd i) (hb : ∀ i, bounds i < bounds (i+1)) (hb0 : 0 < bounds 0) :
+    ∑ i ∈ range n, Grain.dXdt n growth psd bounds i ≤ 0 := by
+  unfold Grain.dXdt
+  simp only
+  have hk : PBM.nucIndex n bounds 0 < n := by
+    unfold PBM.nucIndex; simp [hb0, hn]
+  rw [KawinV.Props.C07.budget n _ _ hk 0]
+  have hdR : ∀ i, 0 < (fun i => bounds (i+1) - bounds i) i := fun i => sub_pos.mpr (hb i)
+  have h0 := KawinV.Props.C07.netFlux_zero_nonpos n growth psd _ hpsd hdR
+  have h1 := KawinV.Props.C07.netFlux_last_nonneg n growth psd _ hpsd hdR
+  linarith
+
+/-- the same after the step-size correction of the face fluxes (correctdXdt) -/
+theorem corrected_number_nonincreasing (n : Nat) (hn : 0 < n) (dt : α) (hdt : 0 < dt)
+    (growth psd bounds : Nat → α)
+    (hpsd : ∀ i, 0 ≤ psd i) (hb : ∀ i, bounds i < bounds (i+1)) (hb0 : 0 < bounds 0) :
+    ∑ i ∈ range n, PBM.dXdt (PBM.correctedFlux n dt psd
+        (PBM.netFlux n growth psd (fun i => bounds (i+1) - bounds i))) (PBM.nucIndex n bounds 0) 0 i ≤ 0 := by
+  have hk : PBM.nucIndex n bounds 0 < n := by
+    unfold PBM.nucIndex; simp [hb0, hn]
+  rw [KawinV.Props.C07.budget n _ _ hk 0]
+  have hdR : ∀ i, 0 < (fun i => bounds (i+1) - bounds i) i := fun i => sub_pos.mpr (hb i)
+  have h0 := KawinV.Props.C07.corrected_zero_nonpos n dt psd _ hdt hpsd
+    (KawinV.Props.C07.netFlux_zero_nonpos n growth psd _ hpsd hdR)
+  have h1 := KawinV.Props.C07.corrected_last_nonneg n dt psd _ hdt hpsd
+    (KawinV.Props.C07.netFlux_last_nonneg n growth psd _ hpsd hdR)
+  linarith
+
+/-- Euler step: the number of grains after the step is at most the number before -/
+theorem euler_number_nonincreasing (n : Nat) (dt : α) (hdt : 0 ≤ dt) (psd d : Nat → α)
+    (hd : ∑ i ∈ range n, d i ≤ 0) :
+    ∑ i ∈ range n, (psd i + dt * d i) ≤ ∑ i ∈ range n, psd i := by
+  rw [Finset.sum_add_distrib, ← Finset.mul_sum]
+  nlinarith [mul_nonneg hdt (neg_nonneg.mpr hd)]
+
+/-- **truncation does not create grains**: emptying the classes below one grain per volume -/
+theorem truncate_number_nonincreasing (n : Nat) (psd : Nat → α) (hpsd : ∀ i, 0 ≤ psd i) :
+    ∑ i ∈ range n, truncate psd i ≤ ∑ i ∈ range n, psd i := by
+  apply Finset.sum_le_sum
+  intro i _
+  unfold truncate; split <;> [exact hpsd i; exact le_refl _]
+
+theorem truncate_nonneg (psd : Nat → α) (hpsd : ∀ i, 0 ≤ psd i) (i : Nat) : 0 ≤ truncate psd i := by
+  unfold truncate; split <;> [exact le_refl _; exact hpsd i]
+
+/-- **mean grain size, what is provable**: write N, N' for the number of grains before / after a
+step and V' for the grain volume after the step and before Normalize (the volume before is 1).
+N' ≤ N (theorems above) gives  Rm'³ = V'/N' ≥ V' · (1/N) = V' · Rm³ : the mean size can decrease
+only by the volume the upwind step loses; with V' = 1 it cannot decrease.  (V' = 1 holds only
+approximately for the upwind scheme, so plain monotonicity stays a monitored clause.) -/
+theorem mean_size_lower_bound (N N' V' : α) (hN' : 0 < N') (hle : N' ≤ N) (hV : 0 ≤ V') :
+    V' * (1 / N) ≤ V' / N' := by
+  have hN : 0 < N := lt_of_lt_of_le hN' hle
+  rw [div_eq_mul_one_div V' N']
+  exact mul_le_mul_of_nonneg_left (one_div_le_one_div_of_le hN' hle) hV
+
+theorem mean_size_monotone_if_volume_conserved (N N' : α) (hN' : 0 < N') (hle : N' ≤ N) :
+    1 / N ≤ 1 / N' := one_div_le_one_div_of_le hN' hle
+
+end grain
+
+/-! ## alignment of the histories -/
+section alignment
+variable {α : Type} [Zero α]
+
+theorem update_some (P : Nat) (ss0 : α) (h : Hist α) (s : Step α) :
+    update P ss0 (some h) s = some ⟨h.rss ++ [s.rssRow], h.ls ++ [s.lsRow], h.ss ++ [s.ss]⟩ := rfl
+
+theorem update_none (P : Nat) (ss0 : α) (s : Step α) :
+    update P ss0 none s =
+      some ⟨[List.replicate P 0, s.rssRow], [List.replicate P 0, s.lsRow], [ss0, s.ss]⟩ := rfl
+
+theorem runSolve_some (P : Nat) (ss0 : α) (h : Hist α) (steps : List (Step α)) :
+    runSolve P ss0 (some h) steps =
+      some ⟨h.rss ++ steps.map (·.rssRow), h.ls ++ steps.map (·.lsRow), h.ss ++ steps.map (·.ss)⟩ := by
+  induction steps generalizing h with
+  | nil => simp [runSolve]
+  | cons s rest ih =>
+    have : runSolve P ss0 (some h) (s :: rest) = runSolve P ss0 (update P ss0 (some h) s) rest := rfl
+    rw [this, update_some, ih]; simp
+
+/-- **one row per host step plus the initial row**: after the host steps `s₁ … s_k` (k ≥ 1) the
+three histories are exactly `initial :: [row of s₁, …, row of s_k]` -/
+theorem runSolve_none (P : Nat) (ss0 : α) (s : Step α) (rest : List (Step α)) :
+    runSolve P ss0 none (s :: rest) =
+      some ⟨List.replicate P 0 :: (s :: rest).map (·.rssRow), List.replicate P 0 :: (s :: rest).map (·.lsRow),
+            ss0 :: (s :: rest).map (·.ss)⟩ := by
+  have : runSolve P ss0 none (s :: rest) = runSolve P ss0 (update P ss0 none s) rest := rfl
+  rw [this, update_none, runSolve_some]; simp
+
+/-- splitting the run into solve calls changes nothing: the histories only see the host steps -/
+theorem runSolves_flatten (P : Nat) (ss0 : α) (h : Option (Hist α)) (solves : List (List (Step α))) :
+    runSolves P ss0 h solves = runSolve P ss0 h solves.flatten := by
+  unfold runSolves runSolve
+  rw [List.foldl_flatten]
+
+/-- **alignment over any number of solve calls**: the strength history has (number of host steps
+so far) + 1 rows — as many as the host's own history — or none before the first step -/
+theorem history_length (P : Nat) (ss0 : α) (solves : List (List (Step α))) :
+    histLen (runSolves P ss0 none solves) =
+      if (solves.map List.length).sum = 0 then 0 else (solves.map List.length).sum + 1 := by
+  rw [runSolves_flatten, ← List.length_flatten]
+  cases hfl : solves.flatten with
+  | nil => simp [runSolve, histLen]
+  | cons s rest => rw [runSolve_none]; simp [histLen]
+
+/-- the three histories always have the same length -/
+theorem history_aligned (P : Nat) (ss0 : α) (solves : List (List (Step α))) (h : Hist α)
+    (hh : runSolves P ss0 none solves = some h) :
+    h.rss.length = h.ls.length ∧ h.ls.length = h.ss.length := by
+  rw [runSolves_flatten] at hh
+  cases hfl : solves.flatten with
+  | nil => rw [hfl] at hh; simp [runSolve] at hh
+  | cons s rest =>
+    rw [hfl, runSolve_none] at hh
+    cases hh; simp
+
+/-- row k+1 is the row handed over by host step k+1 (no shift, no overwrite) -/
+theorem history_row (P : Nat) (ss0 : α) (s : Step α) (rest : List (Step α)) (h : Hist α)
+    (hh : runSolve P ss0 none (s :: rest) = some h) (k : Nat) (hk : k < (s :: rest).length) :
+    h.rss[k+1]? = some ((s :: rest)[k]).rssRow ∧ h.ls[k+1]? = some ((s :: rest)[k]).lsRow ∧
+    h.ss[k+1]? = some ((s :: rest)[k]).ss := by
+  rw [runSolve_none] at hh
+  cases hh
+  refine ⟨?_, ?_, ?_⟩ <;>
+    simp only [List.getElem?_cons_succ, List.getElem?_map, List.getElem?_eq_getElem hk, Option.map_some]
+
+end alignment
+
+section clock
+variable {α : Type} [Field α] [LinearOrder α] [IsStrictOrderedRing α]
+
+/-- **grain-growth clock**: after every host step the clock has advanced by the host time elapsed
+since the first coupled step … -/
+theorem clockRun_eq (c t0 : α) (ts : List α) :
+    clockRun c (t0 :: ts) = ts.map (fun t => c + (t - t0)) := by
+  induction ts generalizing c t0 with
+  | nil => rfl
+  | cons t1 rest ih =>
+    have : clockRun c (t0 :: t1 :: rest) = clockStep c t0 t1 :: clockRun (clockStep c t0 t1) (t1 :: rest) := rfl
+    rw [this, ih]
+    simp only [List.map_cons, clockStep]
+    congr 1
+    apply List.map_congr_left
+    intro t _; ring
+
+/-- … so a clock that starts at the host's initial time equals the host clock after every host step
+(both start at 0 in kawin), over any number of solve calls (the list of host times does not know
+about solve calls) -/
+theorem clock_eq_host (t0 : α) (ts : List α) : clockRun t0 (t0 :: ts) = ts := by
+  rw [clockRun_eq]
+  conv_rhs => rw [← List.map_id ts]
+  apply List.map_congr_left
+  intro t _; simp
+
+/-- one clock entry per host step -/
+theorem clock_length (c t0 : α) (ts : List α) : (clockRun c (t0 :: ts)).length = ts.length := by
+  rw [clockRun_eq]; simp
+
+/-- the clock is the sum of the host steps -/
+theorem clockStep_sum (c t0 t1 t2 : α) : clockStep (clockStep c t0 t1) t1 t2 = c + ((t1 - t0) + (t2 - t1)) := by
+  unfold clockStep; ring
+
+end clock
+
+/-! ### non-vacuity: concrete instances of the hypothesis sets -/
+
+example : clip (fun _ : ℚ => true) (-3) = 0 ∧ clip (fun _ : ℚ => true) 5 = 5 := by
+  constructor <;> simp [clip]
+example : (combine (fun _ : ℚ => true) (fun x _ => x) 1 2 [3] [4] 1).strength = 2 := by
+  simp [combine, tausum, superpose, clean, min3]
+  norm_num
+example : (combine (fun _ : ℚ => true) (fun x _ => x) 1 2 [3] [4] (-1)).strength = -2 := by
+  simp [combine, tausum, superpose, clean, min3]
+  norm_num
+example : constrained (1:ℚ) 1 1 2 5 = 3 ∧ constrained (1:ℚ) 1 1 2 (-5) = -3 ∧ constrained (1:ℚ) 1 1 2 1 = 0 := by
+  refine ⟨?_, ?_, ?_⟩ <;> norm_num [constrained]
+example : moment 3 2 (fun _ => (1:ℚ)) (fun i => (i:ℚ) + 1) = 9 := by
+  norm_num [moment, sumTo, npow, List.range, List.range.loop]
+example : superpose rp 2 [3, 4] = 5 := by
+  have h : ((3:ℝ) ^ (2:ℝ) + (4:ℝ) ^ (2:ℝ)) = (5:ℝ) ^ (2:ℝ) := by
+    rw [Real.rpow_two, Real.rpow_two, Real.rpow_two]; norm_num
+  simp only [superpose, rp, List.map_cons, List.map_nil, List.sum_cons, List.sum_nil, add_zero]
+  rw [h, rpow_inv_cancel (by norm_num) (by norm_num)]
+example : clockRun (0:ℚ) [0, 1, 3] = [1, 3] := by
+  rw [clock_eq_host]
+example : histLen (runSolves 1 (0:ℚ) none [[⟨[1], [2], 3⟩], [], [⟨[4], [5], 6⟩, ⟨[7], [8], 9⟩]]) = 4 := by
+  rw [history_length]; simp
+
 end KawinV.Props.C18
